@@ -1,12 +1,14 @@
 /- `compare_nan` — selene-lib/src/lints/compare_nan.rs:57-111 -/
 import Selene.Lints.TraverseA
+import Selene.Lints.Value
 namespace Selene.Lints.CompareNan
 open Selene.Lua Selene.Lints
 
 def message : String := "comparing things to nan directly is not allowed"
 
+/-- `value_is_zero` (compare_nan.rs:60-66) -/
 def valueIsZero : Expr → Bool
-  | .num t => t.text == "0"
+  | .num t => numberIsZero t.text
   | _ => false
 
 /-- `expression_is_nan` (compare_nan.rs:65-74) -/
